@@ -89,4 +89,24 @@ func (fl *File) Close() error {
 	}''', '''	if size <= 0 {
 		return totalRead, nil
 	}''')]},
+ {"name": "c10-ext4-position-taken-before-extent-loop", "properties": ["C10"], "expect": "C10-f|",
+  "edits": [e("filesystem/ext4/file.go", """	readStartBlock := uint64(fl.offset) / blocksize
+	for _, e := range fl.extents {""", """	readStart := fl.offset
+	readStartBlock := uint64(fl.offset) / blocksize
+	for _, e := range fl.extents {"""),
+            e("filesystem/ext4/file.go", """		startPositionInExtent := fl.offset - int64(e.fileBlock)*int64(blocksize)
+		leftInExtent := extentSize - startPositionInExtent
+		// how many bytes are left to read""", """		startPositionInExtent := readStart - int64(e.fileBlock)*int64(blocksize)
+		leftInExtent := extentSize - startPositionInExtent
+		// how many bytes are left to read""")]},
+ {"name": "c10-refactor-ext4-position-from-start-plus-progress", "properties": ["C10"], "silent": True, "expect": "",
+  "edits": [e("filesystem/ext4/file.go", """	readStartBlock := uint64(fl.offset) / blocksize
+	for _, e := range fl.extents {""", """	readStart := fl.offset
+	readStartBlock := uint64(fl.offset) / blocksize
+	for _, e := range fl.extents {"""),
+            e("filesystem/ext4/file.go", """		startPositionInExtent := fl.offset - int64(e.fileBlock)*int64(blocksize)
+		leftInExtent := extentSize - startPositionInExtent
+		// how many bytes are left to read""", """		startPositionInExtent := readStart + readBytes - int64(e.fileBlock)*int64(blocksize)
+		leftInExtent := extentSize - startPositionInExtent
+		// how many bytes are left to read""")]},
 ]
